@@ -20,16 +20,24 @@ from mc.worlds.kit import F
 LEVEL = "model_checking"
 HOURS = 5
 K = 2000
-UNDER = {"K-d": 1900.0, "K": 2000.0, "K+eps": 2000.2, "K-eps": 1999.8, "K+d": 2100.0}
+UNDER = {"K-d": 1900.0, "K": 2000.0, "K+eps": 2000.2, "K-eps": 1999.8, "K+d": 2100.0, "0.4K": 800.0}  # 0.4K: a put pays more than one unit per contract
 MARKS = {"normal": 0.05, "tiny": 0.0005, "missing": None}
 EXPIRIES = {"before": timedelta(hours=-1), "on-h2": timedelta(hours=2), "between-h2-h3": timedelta(hours=2, minutes=30), "on-h0": timedelta(0),
             "after": timedelta(hours=9)}
-HOLD = {"buy1": (1, 0), "buy3": (3, 0), "buy5sell2": (5, 2), "far-first-buy2": (2, 0)}  # far-first: a later-expiring option is bought BEFORE this one
+HOLD = {"buy1": (1, 0), "buy3": (3, 0), "buy5sell2": (5, 2), "far-first-buy2": (2, 0),  # far-first: a later-expiring option is bought BEFORE this one
+        # a second position (OPP: the opposite kind, same strike and expiry, so exactly one of the two is in the money) settles on the same bar
+        "pair-opt-first": (2, 0), "pair-opp-first": (2, 0)}
+OPP_AMOUNT = 3
+BOOKS = ("opt-first", "other-first")  # other-first: the hour's first row is ANOTHER instrument whose underlying price lies on the other side of the strike
 
 
 def r6(x: Fraction) -> Fraction:
     d = (Decimal(x.numerator) / Decimal(x.denominator)).quantize(Decimal("1e-6"), rounding=ROUND_HALF_UP)
     return F(d)
+
+
+def other_name(case):
+    return "A-OTHER" if case.get("book") == "other-first" else "OTHER"
 
 
 def build_case(case):
@@ -51,16 +59,21 @@ def build_case(case):
         ts = T0 + timedelta(hours=h)
         under = UNDER[case["under"]] if h == settle_h else 2000.0 + 3 * h
         instrs = []
-        for name, kind in (("OPT", case["kind"]), ("OTHER", "CALL")):
+        names = [("OPT", case["kind"]), (other_name(case), "CALL")]  # the frame is sorted by (hour, instrument name)
+        if case["hold"].startswith("pair"):
+            names.append(("OPP", "PUT" if case["kind"] == "CALL" else "CALL"))
+        for name, kind in names:
             mark = 0.05
             if name == "OPT" and h == settle_h:
                 if MARKS[case["mark"]] is None:
                     continue  # instrument missing from the book at the settlement bar
                 mark = MARKS[case["mark"]]
-            exp = expiry if name == "OPT" else T0 + timedelta(days=30)
+            exp = T0 + timedelta(days=30) if name == other_name(case) else expiry
             asks = [[round(mark + 0.0005, 6), 9.0], [round(mark + 0.001, 6), 9.0]]
             bids = [[round(max(mark - 0.0005, 0.0001), 6), 9.0]]
-            instrs.append(db.instrument(name, kind, K, exp, mark, under, asks, bids))
+            # every instrument row carries its OWN underlying price (the exchange quotes one per expiry)
+            u = 2 * K - under if (name == other_name(case) and case.get("book") == "other-first") else under
+            instrs.append(db.instrument(name, kind, K, exp, mark, u, asks, bids))
         hours.append((ts, instrs))
     data = db.frame(hours)
     return data, expiry, settle_h
@@ -102,14 +115,18 @@ def run_case(case):
         if h == 0:
             m.deposit(Decimal(5))
             if case["hold"].startswith("far-first"):
-                m.buy("OTHER", Decimal(1))  # expires in 30 days; held before the option under test, so it comes first in the positions
+                m.buy(other_name(case), Decimal(1))  # expires in 30 days; held before the option under test, so it comes first in the positions
+            if case["hold"] == "pair-opp-first":
+                m.buy("OPP", Decimal(OPP_AMOUNT))
             m.buy("OPT", Decimal(bought))
+            if case["hold"] == "pair-opt-first":
+                m.buy("OPP", Decimal(OPP_AMOUNT))
         if h == 1 and sold and (settle_h is None or settle_h > 1):  # a position settled at hour 0 / 1 cannot be sold at hour 1
             m.sell("OPT", Decimal(sold))
         # trade attempts on the other instrument: open bars must accept, closed bars must refuse
         if case["co"] == "uni" and ts.minute in (0, 1, 30) and ts >= pd.Timestamp(T0) + pd.Timedelta(hours=1):
             try:
-                m.buy("OTHER", Decimal(1))
+                m.buy(other_name(case), Decimal(1))
                 obs["attempts"].append((snap.timestamp, on_hour, True, None))
             except Exception as e:  # noqa: BLE001
                 obs["attempts"].append((snap.timestamp, on_hour, False, f"{type(e).__name__}: {e}"[:80]))
@@ -118,7 +135,7 @@ def run_case(case):
         ts = pd.Timestamp(snap.timestamp)
         if case["co"] == "uni" and ts == ts.floor("1h") and ts >= pd.Timestamp(T0) + pd.Timedelta(hours=1):
             try:
-                m.buy("OTHER", Decimal(1))  # a write AFTER the market update of an open bar; the next (minute) bar must still be closed
+                m.buy(other_name(case), Decimal(1))  # a write AFTER the market update of an open bar; the next (minute) bar must still be closed
             except Exception as e:  # noqa: BLE001
                 obs["attempts"].append((snap.timestamp, True, False, f"after_bar: {type(e).__name__}: {e}"[:80]))
         obs["bars"].append(snap.timestamp)
@@ -209,6 +226,28 @@ def judge(part, case):
     fee = r6(min(Fraction(15, 100000) * n, Fraction(1, 8) * n * r6(mark)))
     pays = diff > 0 and gross > fee
     want = gross - fee if pays else Fraction(0)
+    want_opp = Fraction(0)
+    if case["hold"].startswith("pair"):
+        # the second position: opposite kind, same strike, its own row's underlying and mark
+        So = F(Decimal(str(rows.loc["OPP"].underlying_price)))
+        mo = F(Decimal(str(rows.loc["OPP"].mark_price)))
+        no = Fraction(OPP_AMOUNT)
+        diff_o = (K - So) if is_call else (So - K)
+        gross_o = r6(no * diff_o / So) if diff_o > 0 else Fraction(0)
+        fee_o = r6(min(Fraction(15, 100000) * no, Fraction(1, 8) * no * r6(mo)))
+        pays_o = diff_o > 0 and gross_o > fee_o
+        want_opp = gross_o - fee_o if pays_o else Fraction(0)
+        exp_o = [a for a in acts if type(a).__name__ == "ExpiredAction" and a.instrument_name == "OPP"]
+        del_o = [a for a in acts if type(a).__name__ == "DeliverAction" and a.instrument_name == "OPP"]
+        if len(exp_o) != 1 or pd.Timestamp(exp_o[0].timestamp) != settle_bar:
+            part.violation("C16|pair|expired", "the second position expiring on the same bar was not removed exactly once at that bar", case,
+                           {"expired_at": [str(a.timestamp) for a in exp_o]})
+        if len(del_o) != (1 if pays_o else 0):
+            part.violation("C16|pair|deliver-action", "the second position expiring on the same bar: a DeliverAction is recorded if and only if it pays", case,
+                           {"deliver_actions": len(del_o), "pays": pays_o})
+        elif pays_o and (F(del_o[0].deriver_amount) != gross_o or F(del_o[0].fee) != fee_o or F(del_o[0].income_amount) != want_opp):
+            part.violation("C16|pair|deliver-fields", "DeliverAction of the second position does not match its settlement", case,
+                           {"recorded": [str(del_o[0].deriver_amount), str(del_o[0].fee), str(del_o[0].income_amount)], "expected": [float(gross_o), float(fee_o), float(want_opp)]})
     cash_before = F(obs["cash_after_bar"][i - 1]) if i > 0 else None
     # the settlement bar may also hold the scripted trades of that hour (purchase at h0, partial sale at h1, attempts on OTHER)
     trade_delta = Fraction(0)
@@ -223,8 +262,8 @@ def judge(part, case):
     got = F(obs["cash_after_bar"][i]) - cash_before - trade_delta
     part.count("pays" if pays else "pays_nothing")
     detail = {"settle_bar": str(settle_bar), "underlying": float(S), "mark": float(mark), "contracts": float(n), "gross": float(gross), "fee": float(fee),
-              "expected_income": float(want), "cash_delta": float(got)}
-    if got != want:
+              "expected_income": float(want), "expected_income_second_position": float(want_opp), "cash_delta": float(got)}
+    if got != want + want_opp:
         part.violation(f"C16|payoff|{'itm' if diff > 0 else 'otm'}|{case['mark']}", "cash received at settlement != contracts x |S-K|/S - min(0.015% x contracts, "
                        "12.5% x option value) (nothing when out of the money or when the payoff does not cover the fee)", case, detail)
     if pays:
@@ -265,9 +304,15 @@ def all_cases(run):
     holds = list(HOLD)
     cos = ["alone", "uni"]
     out = []
-    for k, u, mk, e, h, co in itertools.product(kinds, unders, marks, exps, holds, cos):
+    for k, u, mk, e, h, co, bk in itertools.product(kinds, unders, marks, exps, holds, cos, BOOKS):
+        if bk == "other-first" and (mk != "normal" or h not in ("buy1", "pair-opt-first") or u in ("K", "K+eps", "K-eps")):
+            continue
+        if h.startswith("pair") and (mk == "missing" or (co == "uni" and not run.thorough)):
+            continue
+        if u == "0.4K" and (mk != "normal" or h not in ("buy1", "buy5sell2", "pair-opp-first")):
+            continue
         if not run.thorough:
-            if co == "uni" and (h != "buy5sell2" or mk == "missing" and u not in ("K+d", "K-d")):
+            if co == "uni" and (h != "buy5sell2" or bk != "opt-first" or mk == "missing" and u not in ("K+d", "K-d")):
                 continue
             if h == "buy3" and mk != "normal":
                 continue
@@ -275,7 +320,7 @@ def all_cases(run):
             continue
         if mk == "missing" and e in ("before", "on-h0"):
             continue  # the position is bought at hour 0, where the instrument then has to be in the book
-        out.append({"kind": k, "under": u, "mark": mk, "expiry": e, "hold": h, "co": co})
+        out.append({"kind": k, "under": u, "mark": mk, "expiry": e, "hold": h, "co": co, "book": bk})
     return out
 
 
